@@ -36,6 +36,8 @@ def one(item):
         p = os.path.join(d, "include", hdr)
         s = open(p).read()
         new = ("renamed_" + name) if name.endswith("_") else (name + "_renamed")
+        if name[0].isupper() or name[0].islower() and not name.endswith("_") and (name, hdr) in PRIVATE_FUNCTIONS:
+            new = name + "Renamed"
         s2 = re.sub(r"\b%s\b" % re.escape(name), new, s)
         open(p, "w").write(s2)
         r = subprocess.run(["clang++", "-std=gnu++17", "-fsyntax-only", "-I" + os.path.join(d, "include"), "-I/usr/include/eigen3", os.path.join(VERIF, "wit", "wit_quick.cpp")],
@@ -55,7 +57,20 @@ def one(item):
         shutil.rmtree(d, ignore_errors=True)
 
 
+PRIVATE_FUNCTIONS = [("propagateGradInternal", "SplineTrajectory.hpp"), ("solveInternalDerivatives", "SplineTrajectory.hpp"), ("updateSplineInternal", "SplineTrajectory.hpp"),
+                     ("convertTimePointsToSegments", "SplineTrajectory.hpp"), ("precomputeTimePowers", "SplineTrajectory.hpp"), ("updateCumulativeTimes", "SplineTrajectory.hpp"),
+                     ("precomputePointDiffs", "SplineTrajectory.hpp"), ("initializeInternal", "SplineTrajectory.hpp"), ("buildDerivativeCoefficients", "SplineTrajectory.hpp"),
+                     ("evaluateSegmentHorner", "SplineTrajectory.hpp"), ("invalidateDerivativeCaches", "SplineTrajectory.hpp"), ("solveSpline", "SplineTrajectory.hpp"),
+                     ("Inverse3x3", "SplineTrajectory.hpp"), ("setBlock3x3", "SplineTrajectory.hpp"), ("initializePPoly", "SplineTrajectory.hpp"),
+                     ("checkValidity", "SplineOptimizer.hpp"), ("rebuildLayoutCache", "SplineOptimizer.hpp"), ("ensureLayoutCache", "SplineOptimizer.hpp"), ("markLayoutDirty", "SplineOptimizer.hpp"),
+                     ("calculateIntegralCost", "SplineOptimizer.hpp"), ("getOrCreateInternalWorkspace", "SplineOptimizer.hpp"), ("reportError", "SplineOptimizer.hpp"),
+                     ("isSpatialOptimized", "SplineOptimizer.hpp"), ("countOptimizedDerivativeBlocks", "SplineOptimizer.hpp"), ("calculateDimension", "SplineOptimizer.hpp")]
+
+
 if __name__ == "__main__":
+    if "--functions" in sys.argv:
+        candidates = lambda: PRIVATE_FUNCTIONS
+        sys.argv.remove("--functions")
     args = [a for a in sys.argv[1:] if not a.startswith("--")]
     jobs = int(next((a.split("=")[1] for a in sys.argv[1:] if a.startswith("--jobs=")), "4"))
     items = [c for c in candidates() if not args or c[0] in args]
